@@ -603,9 +603,15 @@ def run_check(specs, engines, prop, tier, seed, keep=False, only_jobs=None):
     # evidence
     ev = spec['evidence'](agg, samples, distinct, tier)
     need = spec.get('require', {})
+    def observed(field):
+        v = agg
+        parts = field.split('.', 1) if field.split('.', 1)[0] in agg and isinstance(agg.get(field.split('.', 1)[0]), dict) else [field]
+        for part in parts:
+            v = v.get(part, 0) if isinstance(v, dict) else 0
+        return v if isinstance(v, (int, float)) else 0
     for field, minimum in need.get(tier, need.get('any', {})).items():
-        if agg.get(field, 0) < minimum and not new_keys:
-            inconclusive.append('observed too little: %s=%s < %s' % (field, agg.get(field, 0), minimum))
+        if observed(field) < minimum and not new_keys:
+            inconclusive.append('observed too little: %s=%s < %s' % (field, observed(field), minimum))
     evidence = {
         'property_id': prop, 'tier': tier, 'seed': int(seed), 'level': spec.get('level', 'exploration'),
         'coverage': ev, 'assumptions': spec.get('assumptions', []), 'wall_s': round(time.time() - t0, 2),
